@@ -178,7 +178,8 @@ def minimise_pair(case, pa, pb, timeout, budget=160):
     # 1. presentation components back to identity
     for p in (pa, pb):
         for key in ('pad', 'amap', 'S0rot', 'lab_rot', 'fresh', 'lab_share',
-                    'smap', 'S', 'R', 'L', 'ctype'):
+                    'smap', 'S', 'R', 'L', 'ctype', 'Fperm', 'Frot', 'Fct',
+                    'Fin'):
             if tests[0] >= budget:
                 break
             if p.get(key) == ident.get(key):
